@@ -390,6 +390,25 @@ func (c *Check) slashInternals(s *Func, gBinding *Func) {
 		return
 	}
 	seen := map[string]bool{}
+	// every committed path of the slash function decides the availability of the binding it slashed — also a path that
+	// stores nothing (an amount that rounds to zero): the minimum in force may have been raised since the binding was made
+	mdName := nameOf(c.minDepositFunc("C04.5"), "keeper.Keeper.getMinDeposit")
+	for _, pp := range pps {
+		if len(pp.Stored) > 0 || pp.Path.Exit != ExitSuccess {
+			continue
+		}
+		decided := false
+		for _, fa := range pp.Facts {
+			if fa.T.ContainsOp(mdName) {
+				decided = true
+			}
+			if strings.HasSuffix(stripConv(fa.T).Op, ".ServiceBinding.Available") && fa.Neg {
+				decided = true
+			}
+		}
+		c.req(decided, "C04.5", unitConstruct(s, "auto-disable:decided-on-every-path"), pp.Path.RetPos,
+			"a committed path of the slash function that stores nothing has still compared the deposit with the minimum in force (or found the binding unavailable)")
+	}
 	for _, pp := range pps {
 		if len(pp.Stored) == 0 {
 			continue
